@@ -25,7 +25,7 @@ from pathlib import Path
 VERIF = Path(__file__).resolve().parent.parent
 REPO = Path(os.environ.get("VT_REPO", "/repo"))
 MAX_REPLAYS_PER_SIG = 3
-MAX_UNLISTED_REPLAYS = 12
+MAX_UNLISTED_REPLAYS = 24
 
 
 class HarnessError(Exception):
@@ -237,18 +237,27 @@ def main(argv=None):
         rdir.mkdir(exist_ok=True)
         for old in rdir.glob(f"{pid}-*.json"):
             old.unlink()
-        per_sig = {}
-        for i, (sig, case, detail) in enumerate(unlisted):
-            per_sig[sig] = per_sig.get(sig, 0) + 1
-            if per_sig[sig] > MAX_REPLAYS_PER_SIG or i >= MAX_UNLISTED_REPLAYS:
-                continue
+        # replay files: unclassified violations first, then round-robin over the signatures, so that a new
+        # signature cannot hide behind a large family of another one
+        by_sig = {}
+        for v in unlisted:
+            by_sig.setdefault(v[0], []).append(v)
+        order = sorted(by_sig, key=lambda k: (k is not None, str(k)))
+        picked = []
+        for rnd in range(MAX_REPLAYS_PER_SIG):
+            for k in order:
+                if rnd < len(by_sig[k]) and len(picked) < MAX_UNLISTED_REPLAYS:
+                    picked.append(by_sig[k][rnd])
+        for i, (sig, case, detail) in enumerate(picked):
             path = rdir / f"{pid}-{i}.json"
             path.write_text(json.dumps(dict(property=pid, signature=sig, case=case, detail=detail,
                                             tier=a.tier, seed=seed), indent=1, default=repr))
             print(f"VIOLATION property={pid} replay={path}")
             print(f"  signature={sig} detail={detail[:400]}")
         if unlisted:
-            print(f"  ({len(unlisted)} violating cases in total)")
+            import collections as _c
+            cnt = _c.Counter(str(v[0]) for v in unlisted)
+            print(f"  ({len(unlisted)} unlisted violating cases in total; by signature: {dict(cnt)})")
         ev = write_evidence(ctx, mod.LEVEL, len(unlisted))
         c = ev["coverage"]
         print(f"{pid} tier={a.tier} seed={seed} evaluations={c['evaluations']} "
